@@ -35,7 +35,7 @@ Definition TokOk (text : bytes) (tok : token) : Prop :=
   match tok with
   | TEntityDecl _ value => SliceOk text value
   | TElementStart _ local _ => slice_len local <> 0
-  | TAttribute _ _ _ _ _ value => SliceOk text value
+  | TAttribute r _ _ _ _ value => SliceOk text value /\ snd r <> 0
   | TText t r => Boundary text (fst r) /\ Boundary text (snd r) /\ fst r <= snd r /\
                  t = {| sl_start := fst r; sl_end := snd r |}
   | _ => True
@@ -138,7 +138,7 @@ Proof.
   intros Hs. unfold parse_attribute.
   eapply safe_bind; [eapply consume_qname_safe; eauto|]. intros [[p l] s1] [H1 _]. cbv beta iota.
   eapply safe_bind; [eapply consume_eq_safe; eauto|]. intros s2 H2. cbv beta.
-  eapply safe_bind; [eapply consume_quote_safe; eauto|]. intros [q s3] [H3 Hq]. cbv beta iota.
+  eapply safe_bind; [eapply consume_quote_safe; eauto|]. intros [q s3] (H3 & Hq & _). cbv beta iota.
   eapply safe_bind; [eapply skip_chars_safe; eauto|]. intros s4 H4. cbv beta.
   eapply safe_bind; [eapply slice_back_safe; eauto; [apply H4|lia]|]. intros sl _.
   eapply safe_mono; [eapply consume_byte_safe; eauto|]. intros s5 H5. ext.
@@ -192,12 +192,12 @@ Proof.
   intros s1 H1. cbv beta.
   eapply safe_bind; [eapply slice_back_safe; eauto; [apply Hs|apply H1]|]. intros id _.
   eapply safe_bind; [eapply consume_spaces_safe; eauto|]. intros s2 H2. cbv beta.
-  eapply safe_bind; [eapply consume_quote_safe; eauto|]. intros [q s3] [H3 Hq]. cbv beta iota.
+  eapply safe_bind; [eapply consume_quote_safe; eauto|]. intros [q s3] (H3 & Hq & _). cbv beta iota.
   eapply safe_bind; [eapply consume_bytes_not; eauto|]. intros [sl s4] H4. cbv beta iota.
   eapply safe_bind; [eapply consume_byte_safe; eauto|]. intros s5 H5. cbv beta.
   destruct (bytes_eqb _ _). { cbn. ext. }
   eapply safe_bind; [eapply consume_spaces_safe; eauto|]. intros s6 H6. cbv beta.
-  eapply safe_bind; [eapply consume_quote_safe; eauto|]. intros [q' s7] [H7 Hq']. cbv beta iota.
+  eapply safe_bind; [eapply consume_quote_safe; eauto|]. intros [q' s7] (H7 & Hq' & _). cbv beta iota.
   eapply safe_bind; [eapply consume_bytes_not; eauto|]. intros [sl' s8] H8. cbv beta iota.
   eapply safe_bind; [eapply consume_byte_safe; eauto|]. intros s9 H9. cbn. ext.
 Qed.
@@ -209,7 +209,7 @@ Proof.
   intros Hs. unfold parse_entity_def.
   eapply safe_bind; [eapply curr_byte_safe; eauto; apply Hs|]. intros x _. cbv beta.
   destruct ((x =? 34) || (x =? 39)).
-  { eapply safe_bind; [eapply consume_quote_safe; eauto|]. intros [q s1] [H1 Hq]. cbv beta iota zeta.
+  { eapply safe_bind; [eapply consume_quote_safe; eauto|]. intros [q s1] (H1 & Hq & _). cbv beta iota zeta.
     pose proof (skip_bytes_not text s1 q Hq ltac:(eauto)) as H2.
     eapply safe_bind; [eapply slice_back_safe; eauto; [apply H1|apply H2]|]. intros value ->.
     eapply safe_bind; [eapply is_xml_str_safe; eauto; [apply H1|apply H2|apply H2]|]. intros _ _.
@@ -363,12 +363,14 @@ Proof.
   intros s2 H2. cbv beta.
   sb consume_qname_safe. intros [[prefix local] s3] [H3 _]. cbv beta iota.
   sb consume_eq_safe. intros s4 H4. cbv beta.
-  sb consume_quote_safe. intros [q s5] [H5 Hq]. cbv beta iota.
+  sb consume_quote_safe. intros [q s5] (H5 & Hq & Hlt5). cbv beta iota.
   sb advance_until2_safe. intros s6 H6. cbv beta.
   sb slice_back_safe. { apply H5. } { apply H6. } intros value ->.
   sb is_xml_str_safe. { apply H5. } { apply H6. } { apply H6. } intros _ _.
   sb consume_byte_safe. intros s7 H7. cbv beta.
-  sbev. { split; [apply H5|]. split; [apply H6|]. cbn. apply H6. }
+  sbev.
+  { split; [split; [apply H5|split; [apply H6|cbn; apply H6]]|].
+    destruct H6 as (_ & H6 & _). destruct H7 as (_ & H7 & _). lia. }
   intros c1 Hc1. cbn in Hc1.
   eapply safeP_mono; [apply IHfu; eauto|]. intros r' [Hr' Hc']. split; auto. ext.
 Qed.
